@@ -1,7 +1,7 @@
 (* C05 - Handlers bind each parameter from its declared source and enforce requiredness.
    Conversion part: every representable value of the declared type survives text -> value. *)
 From Gleece Require Import Base.Bytes Model.Bind Proofs.BindProofs Model.Project Model.Spec Model.Router
-     Model.RouterParams Proofs.RouterParamsProofs.
+     Model.RouterParams Proofs.RouterParamsProofs Proofs.CrossProofs.
 From Coq Require Import String.
 Open Scope N_scope.
 
@@ -52,6 +52,22 @@ Theorem C05_wire_names : forall e p t, tparam_ok e p t = true -> loc_eqb (pa_loc
   forall w, In w (tp_wires t) -> w = wire_name p.
 Proof. exact tparam_ok_wire. Qed.
 
+(* documented parameters = bound parameters, across the two artifacts: whenever the model emits a
+   document d and a generated routes file passed its translation obligation, every parameter the
+   document shows for an operation is read by that operation's handler from the documented
+   location (the engine's request-reading expressions for it) under the documented name *)
+Theorem C05_documented_params_are_bound : forall (e : engine) (p : project) (d : list operation)
+        (hs : list (list tparam * list str)),
+  spec_ops p = Some d -> router_params_ok e p hs = true ->
+  forall o, In o d ->
+  exists c m h, In (c, m) (routes_of p) /\ In h hs /\ o_id o = m_name m /\
+    forall dp, In dp (o_params o) ->
+    exists prm t, In prm (m_params m) /\ pa_ctx prm = false /\ In t (fst h) /\
+      op_name dp = wire_name prm /\ op_in dp = lower_loc (pa_loc prm) /\
+      (forall w, In w (tp_wires t) -> w = op_name dp) /\
+      forallb (source_ok e (pa_loc prm) (tp_var t)) (tp_sources t) = true.
+Proof. exact documented_params_are_bound. Qed.
+
 Example C05_nonvacuous :
   convert PUint (print (VUint 18446744073709551615)) = Some (VUint 18446744073709551615) /\
   convert (PIntN 8) (print (VInt (-128))) = Some (VInt (-128)) /\
@@ -70,4 +86,5 @@ Print Assumptions C05_uint32_refuted.
 Print Assumptions C05_translated_handlers_sound.
 Print Assumptions C05_translated_handler_sound.
 Print Assumptions C05_wire_names.
+Print Assumptions C05_documented_params_are_bound.
 Print Assumptions C05_nonvacuous.
